@@ -10,13 +10,22 @@ def gram_d(al, be, ga):
 
 def cell(rng, kind=None, dmin=0.02):
     """valid cell with Gram factor D >= dmin; kinds: ortho, near, oblique, random"""
-    kind = kind or rng.choice(['near', 'oblique', 'random', 'random', 'ortho'])
+    kind = kind or rng.choice(['near', 'oblique', 'random', 'random', 'ortho', 'nearortho', 'special'])
     for _ in range(10000):
         a, b, c = (rng.uniform(2.0, 25.0) for _ in range(3))
         if kind == 'ortho':
             al = be = ga = 90.0
         elif kind == 'near':
             al, be, ga = (90 + rng.uniform(-8, 8) for _ in range(3))
+        elif kind == 'nearortho':
+            # within 1e-7 .. 1e-3 degrees of 90 (some angles exactly 90): tolerance-keyed "orthogonal" shortcuts live here
+            al, be, ga = (90.0 if rng.random() < 0.3 else 90 + rng.choice([-1, 1]) * 10 ** rng.uniform(-7, -3) for _ in range(3))
+        elif kind == 'special':
+            # exact special values: equal axes, angles of exactly 60/90/120 degrees
+            a = rng.uniform(2.0, 25.0)
+            b = a if rng.random() < 0.5 else b
+            c = a if rng.random() < 0.3 else c
+            al, be, ga = (rng.choice([90.0, 90.0, 60.0, 120.0, 90 + rng.uniform(-8, 8)]) for _ in range(3))
         elif kind == 'oblique':
             al, be, ga = (rng.uniform(35, 145) for _ in range(3))
             d = gram_d(al, be, ga)
